@@ -247,7 +247,7 @@ Proof. intros [[[H _] _] _]. unfold remaining_flight_space, remaining_buffer_spa
 
 Lemma w_crypto_RF k c s snd : OI c s -> sender_ok snd -> RF k c s (w_crypto c s snd).
 Proof.
-  intros H S. pose proof S as (_ & _ & Hv). unfold w_crypto.
+  intros H S. pose proof S as (_ & _ & Hv). unfold w_crypto, w_crypto_gen.
   destruct (vsz_eq _ Hv) as (E & B & P & R). rewrite R.
   set (ov := W_crypto_frame_frame_overhead (next_offset snd)).
   pose proof (get_frame_cases snd (remaining_flight_space s - ov) None S) as G.
@@ -269,7 +269,7 @@ Proof. unfold stream_ft, WFT_STREAM_BASE. destruct (off =? 0), fin; lia. Qed.
 
 Lemma w_stream_RF k c s sid snd mo : OI c s -> vok sid -> sender_ok snd -> RF k c s (w_stream c s sid snd mo).
 Proof.
-  intros H Hs S. pose proof S as (_ & _ & Hv). unfold w_stream.
+  intros H Hs S. pose proof S as (_ & _ & Hv). unfold w_stream, w_stream_gen, stream_gate.
   destruct (vsz_eq _ Hv) as (E & B & P & R). destruct (vsz_eq _ Hs) as (Es & Bs & Ps & Rs). rewrite R, Rs. cbn [orb].
   set (ov := W_stream_frame_frame_overhead sid (next_offset snd)).
   destruct ((remaining_flight_space s <? ov) || (remaining_buffer_space s <? ov)) eqn:ST.
